@@ -37,6 +37,15 @@ prop("C08", claimed=False, jobs=12, timeout=600, mir=None, level_text="", level_
 
 prop("C06", claimed=False, jobs=14, timeout=900, mir=None, level_text="", level_note="")
 
+RQSC_COST = ("RQSC multi-resource / multi-controller byte-sum query exceeds 30 min on both back ends (values pass "
+             "through nested Vec copies); RQSC recomputes its checksum from scratch on every add, covered at 0-1 "
+             "resources; the same sequences run for C02-C04")
+prop("C01", claimed=False, jobs=12, timeout=900, mir=None, level_text="", level_note="",
+     skip={"q_rqsc_c2mem_acpi": RQSC_COST, "q_rqsc_c1pci_c0_c1vendor": RQSC_COST, "t_rqsc_c2vendor_cache_c2pci_mem": RQSC_COST})
+prop("C02", claimed=False, jobs=14, timeout=900, mir=None, level_text="", level_note="")
+prop("C03", claimed=False, jobs=14, timeout=900, mir=None, level_text="", level_note="")
+prop("C04", claimed=False, jobs=14, timeout=900, mir=None, level_text="", level_note="")
+
 
 def bounds_of(prop_id, short):
     """human-readable bound of one harness, derived from its name suffixes"""
